@@ -1,6 +1,11 @@
-(* model-vs-implementation comparison only (used while the hub model is being built) *)
+(* every hub predicate on every case (used while developing the hub layer) *)
 From Coq Require Import List NArith Bool.
-From Verif Require Export corr.Run_Hub.
+From Verif Require Export corr.Hub_preds.
 Import ListNotations.
+Open Scope N_scope.
 Definition case := hcase.
-Definition judge_all (cs : list case) : list (N * N * N) := flat_map compare_case cs.
+Definition judge_all (cs : list case) : list (N * N * N) :=
+  flat_map (fun c => compare_case c ++
+     flat_map (fun w => match P_hub w c with
+                        | Some (i, clause) => [(c.(k_id), 10 + w, i * 1000 + clause)]
+                        | None => [] end) [1; 3; 4; 5; 6; 7; 8; 9; 19]) cs.
